@@ -765,6 +765,7 @@ def run(ctx):
     r10(ctx)
     r11(ctx)
     r12(ctx)
+    r13(ctx, g)
 
 
 # ============================================================================================================= R1
@@ -2843,3 +2844,81 @@ def r12(ctx):
                 ctx.undecided("R12", "EXIT", f, text, "a path through the loop body that passes no addition exists, through tests the rule does not decide", loop)
     if not located:
         ctx.undecided("R12", "LOOP", f"{MOD}.py", "the statements are added for the items as given (each of them, in their order)", "no loop over a parameter that adds statements to a block located")
+
+
+# ============================================================================================================= R13
+def r13(ctx, g: Grammar):
+    """as_dict reads `.type` only on Token objects.  The walk of as_dict runs over the Reconstructor's item stream, in which the kept
+    terminals of a statement are lark Tokens and its keyword literals are plain str (no `.type`).  A statement production with two or more
+    keyword literals besides `set` (on the pinned grammar: `"#" "dns_resolver" string ";"`, the statement DnsBeaconBlock / from_beacon_config
+    build for SETTING_DNSRESOLVER) gives a line of three or more items whose last two include a keyword - the shape the header / parameter
+    branch takes for a (name, value) pair.  So either every `.type` read on a line element is dominated by `isinstance(<it>, Token)`, or the
+    lines of those productions are taken out (a test of the first line item against the production's first keyword whose branch continues
+    with the next item and that dominates the read) - otherwise the dictionary view of a built profile raises AttributeError where the same
+    profile parsed from its text (there the statement is a comment) has a view (F27)."""
+    f = ctx.repo.func(f"{MOD}.C2Profile.as_dict")
+    cfg = ctx.cfg(f)
+    fv = FuncView.of(f.node)
+    prods = []
+    for r in g.rules:
+        kws = [k for k in r.keywords if k != "set"]
+        if ";" in r.filtered and len(kws) >= 2 and r.kept:
+            prods.append((r, kws))
+    text = "`.type` is read on Token items only"
+    if not prods:
+        ctx.ob("R13", "AGREE", f, text, True, "the grammar has no statement production with two keyword literals besides `set`: every line of three or more items ends in two Tokens")
+        return
+    reads = []
+    for n in ast.walk(f.node):
+        if isinstance(n, ast.Attribute) and n.attr == "type" and isinstance(n.ctx, ast.Load) and isinstance(n.value, ast.Name):
+            guarded = False
+            for e, pol in _facts_at(ctx, f, n):
+                if pol and _is_call(e, "isinstance") and len(e.args) == 2 and dotted(e.args[0]) == n.value.id:
+                    guarded = True
+            if not guarded:
+                reads.append(n)
+    names = ", ".join(f"{r.tree_name} ({' '.join(k)} ..)" for r, k in prods)
+    if not reads:
+        ctx.ob("R13", "AGREE", f, text, True, f"every `.type` read in as_dict is dominated by an isinstance test of its receiver; productions with keyword items: {names}")
+        return
+    for n in reads:
+        st = fv.stmt_of(n)
+        # the receiver must be an element of the line for the read to be a subject
+        loop = None
+        cur = st
+        while cur is not None and id(cur) in fv.parent:
+            cur = fv.parent[id(cur)]
+            if isinstance(cur, ast.For) and isinstance(cur.target, ast.Name) and cur.target.id == n.value.id:
+                loop = cur
+                break
+        if loop is None or not isinstance(loop.iter, (ast.Name, ast.Subscript)):
+            ctx.undecided("R13", "AGREE", f, text, f"`{src(n)}` is not guarded by isinstance and its receiver is not the variable of a loop over (a slice of) the line", n)
+            continue
+        for r, kws in prods:
+            skip = None
+            shaped = False
+            for s_ in statements(f.node):
+                if not isinstance(s_, ast.If):
+                    continue
+                hit = False
+                for c in ast.walk(_inl(f, s_.test)):
+                    if isinstance(c, ast.Compare) and len(c.ops) == 1 and isinstance(c.ops[0], (ast.Eq, ast.In)):
+                        l, rr = c.left, c.comparators[0]
+                        if isinstance(l, ast.Subscript) and _c(l.slice) == 0:
+                            vals = [_c(rr)] if isinstance(c.ops[0], ast.Eq) else [_c(x) for x in getattr(rr, "elts", [])]
+                            if kws[0] in vals:
+                                hit = True
+                if hit:
+                    skip = s_
+                    if s_.body and isinstance(s_.body[-1], ast.Continue) and cfg.has(s_) and cfg.has(st) and cfg.dominates(cfg.node(s_), cfg.node(st)):
+                        shaped = True
+                        break
+            if shaped:
+                ctx.ob("R13", "AGREE", f, text, True, f"lines of `{r.tree_name}` ({' '.join(kws)} ..) are taken out by `{src(skip.test)}` (continues with the next item, dominates `{src(n)}`)", skip)
+            elif skip is not None:
+                ctx.undecided("R13", "AGREE", f, text, f"a test of the first line item against `{kws[0]}` exists (`{src(skip.test)}`) but it does not end in `continue` / does not dominate `{src(n)}`", skip)
+            else:
+                ctx.ob("R13", "AGREE", f, text, False,
+                       f"`{src(n)}` is read on every item of `{src(loop.iter)}` without an isinstance test, and the statement `{r.tree_name}` ({' '.join(kws)} <string>;) - built by "
+                       f"set_option(\"{r.tree_name}\", ..) / from_beacon_config - gives a line whose item `{kws[-1]}` is a plain str: as_dict raises AttributeError for a built profile "
+                       f"while the same profile parsed from its text has a view", n)
